@@ -76,6 +76,34 @@ pub fn cmd_run(args: &[String]) -> i32 {
                 panics += 1;
             }
             emit(r, &mut out);
+            // tokens at and around the first token of a few shards (inputs only; TLC judges the outputs)
+            if bytes[0] == 0 && bytes[7] == 0 && nn > 1 {
+                for sidx in [1u128, (nn as u128) / 2, nn as u128 - 1] {
+                    if sidx == 0 {
+                        continue;
+                    }
+                    let x: u128 = ((sidx << 64) + nn as u128 - 1) / nn as u128; // smallest shifted value in shard sidx
+                    let unit: u128 = 1u128 << msb;
+                    let xr = ((x + unit - 1) >> msb) << msb; // next value representable after the shift
+                    for delta in [-1i128, 0, 1] {
+                        let shifted = xr as i128 + delta * unit as i128;
+                        if shifted < 0 || shifted >= (1i128 << 64) {
+                            continue;
+                        }
+                        let biased = (shifted as u128 >> msb) as u64;
+                        let token = biased.wrapping_sub(1u64 << 63) as i64;
+                        if token == i64::MIN {
+                            continue;
+                        }
+                        let r = std::panic::catch_unwind(|| shard_case(nn, msb, token));
+                        if r.is_err() {
+                            panics += 1;
+                        }
+                        emit(r, &mut out);
+                        n += 1;
+                    }
+                }
+            }
         } else {
             let (nn, lo, hi) = (c["n"].as_u64().unwrap() as u16, c["lo"].as_u64().unwrap() as u16, c["hi"].as_u64().unwrap() as u16);
             let shards: Vec<u32> = if nn <= 4 { (0..nn as u32).collect() } else { vec![0, 1, (nn / 2) as u32, nn as u32 - 1] };
